@@ -3,9 +3,10 @@ from checks import _balls_common as common
 
 ID = "C04"
 LEVEL = "exploration"
-RUNS = {"quick": 700, "thorough": 40000}
+RUNS = {"quick": 2000, "thorough": 60000}
 WALL_CAP = {"quick": 100, "thorough": 3000}
-RULE = ("one case = one machine topology (trough/plunger[/lock/VUK/manual plunger]) with 1-4 balls, a swarm-drawn eject "
+RULE = ("one case = one of seven machine topologies (t1 trough+coil plunger, t2 +two-ball lock, t3 +entrance-counted VUK, t4 "
+        "mechanical plunger, t5 +ball save, t6 two independent feeds, t7 three-stage chain) with 1-4 balls, a swarm-drawn eject "
         "failure rate and scheduler knobs, and a history of game actions (start, drain, playfield hit, multiball add, lock "
         "shot/release, manual plunge, end game) with tape-chosen timing; the physical world (PinWorld) answers coil "
         "commands with success / fall-back / stuck / late arrival. Non-trivial = reached a probe (drain, multiball add, "
@@ -15,7 +16,12 @@ REAL = ["mpf.devices.ball_device.* (counters, incoming/outgoing handlers, ejecto
         "mpf.modes.game", "mpf.core.switch_controller", "mpf.devices.driver", "MachineController boot"]
 STUBS = ["physical machine (sim/pinworld.py)", "platform leaf objects (SimPlatform/SimDriver)", "event loop/clock (SimLoop)"]
 ASSUMPTIONS = ["PinWorld rules (module docstring): no teleporting, one ball per switch, full devices bounce balls back, "
-               "eject outcomes limited to success/fall-back/stuck/late",
+               "eject outcomes limited to success/fall-back/stuck/late (entrance-counted devices: success/late only, the "
+               "others are unobservable for any controller)",
+               "host stalls are limited to 0.2 s here (MPF's ball logic is built on 0.5 s debounce times and 2-3 s timeouts)",
+               "return ambiguity: a ball in transit whose source saw another ball enter meanwhile is not held against the "
+               "no-room rule; re-entry ambiguity: when a different ball enters a device whose own eject is unconfirmed, "
+               "playfield/total counts are not judged in that run (device counts still are)",
                "balls MPF cannot yet know about (entered a target less than its count delay ago, not sent by MPF) are not held "
                "against the no-room rule"]
 STATE_ABSTRACTION = "(topology, per-device (balls, state), playfield.balls, game running)"
